@@ -3,9 +3,9 @@ PID = "C20"
 LEAN_MODULE = "Hw.Props.C20"
 NS = "Hw.Props.C20."
 THEOREMS = [NS + t for t in """C20_calc_fold C20_calc_fold_nodeset C20_calc_ignored_is_identity C20_calc_N_eq_len_I
-C20_calc_single C20_calc_largest_roundtrip_partial C20_calc_rejects C20_calc_rejects_missing_value
-C20_calc_bad_level_exits_zero C20_calc_reversed_range_hangs C20_calc_negative_wrap_aborts
-C20_distrib_prints_n C20_distrib_rejects""".split()]
+C20_calc_single C20_calc_largest_roundtrip C20_calc_rejects C20_calc_rejects_bad_level C20_calc_bad_number_of
+C20_calc_rejected_range_ignored C20_calc_range_loop_bound
+C20_distrib_prints_n C20_distrib_rejects C20_distrib_invalid_number""".split()]
 CHECK_MODULES = ["Hw.Props.C20"]
 TRUSTED = ["the C03/C04/C09/C11 models the calc model is built from (bitmap operators, the three set printers/parsers, covering / "
            "largest / distrib helpers, hwloc_type_sscanf / hwloc_obj_type_snprintf) are tied to the C by their own engines",
@@ -13,20 +13,21 @@ TRUSTED = ["the C03/C04/C09/C11 models the calc model is built from (bitmap oper
            "modelled domain and answered `skip`)",
            "lstopo, hwloc-diff and hwloc-patch are not modelled in Lean: the harness compares them with the library in-process "
            "(byte-identical export, dump equality after reload / after diff|patch)"]
-ASSUMPTIONS = ["the tool is always given `-i <synthetic|xml>` (plus optionally --if) first; the other topology options of hwloc-calc "
-               "(--restrict, --cpukind, --disallowed) and of hwloc-distrib (--ignore, --restrict) are exercised for crashes only",
-               "excluded input classes (kept out of the generated verdict stream by the syntactic guard risky_loc() of the harness, "
-               "probed from corpus/tools-known with a 3 s limit, reported as KNOWN-FINDING): F40 reversed or open-ended index "
-               "ranges beyond the level width make hwloc_calc_append_object_range loop ~2^32 times; F41 `type:N:-1` fails "
-               "assert(amount != -1 || !wrap); F42 an unusable -N/-I/-H level leaves with status 0 and no output; F43 "
-               "`hwloc-distrib abc` (atol = 0) prints nothing and exits 0",
-               "model answers `skip` (exit class and stdout not compared, crashes still are) for: bracket filters, pci=busid, "
-               "cpukind/memorytier pseudo-levels, --local-memory*, --best-memattr, --default-nodes, --help/--version, list-format "
-               "indexes >= 2^21, loops of more than 4096 iterations, --no-smt on an infinite set",
-               "C20_calc_largest_roundtrip_partial assumes that every object picked by hwloc_get_first_largest_obj_inside_cpuset is "
-               "inside the remaining set (true on well-formed topologies; the textual feed-back is checked by the LRT runs)"]
+ASSUMPTIONS = ["the tool is always given `-i <synthetic|xml>` (plus optionally --if and --restrict <set|nodeset=set>) first; --restrict "
+               "is applied by the harness with the same library calls to the topology whose dump the model receives; the other "
+               "topology options (--cpukind, --disallowed, --restrict-flags; hwloc-distrib --ignore) are exercised for crashes only",
+               "no input class is excluded: the former defect classes F40-F44 are fixed in /repo and are ordinary generated and "
+               "corpus cases (reversed ranges, non-positive widths, open ranges beyond the level width, invalid -N/-I/-H types, "
+               "unnamed objects under os=/misc=, non-numeric hwloc-distrib numbers)",
+               "model answers `skip` (exit class and stdout not compared, crashes still are) for: cpukind/memorytier pseudo-levels, "
+               "--local-memory*, --best-memattr, --default-nodes, --help/--version, numbers with white space or signs where libc "
+               "accepts them, list-format indexes >= 2^21, loops of more than 4096 iterations, --no-smt on an infinite set",
+               "C20_calc_largest_roundtrip is stated under Tree d (derived from WF d and the DFS numbering in Hw/Topo/WFTree.lean) for "
+               "finite sets inside the root cpuset; that the printed Type:index names parse back to the same objects is the C11 "
+               "round trip, checked by the LRT runs"]
 MODELLED = ("modelled: hwloc-calc.h 47-803 (append modes, level and range parsers, object ranges incl. nesting and wrap-around, "
-            "special levels by index, os=/misc= names, raw sets in three formats with the format guess, all/root), hwloc-calc.c "
+            "special levels by index, os=/misc= names, pci=busid, bracket filters [tier=] [subtype=] [vendor:device], raw sets in three "
+            "formats with the format guess, all/root), hwloc-calc.c "
             "main option loop, stdin mode and hwloc_calc_output (--no-smt, --single, --largest, -N, -I, -H, four output formats), "
             "hwloc-distrib.c option loop and output; exercised but not modelled: hwloc_utils_lookup_input_option / "
             "enable_input_format, lstopo.c option parsing and its xml/synthetic back ends, hwloc-diff.c, hwloc-patch.c "
